@@ -152,7 +152,17 @@ def build(unit, cfile, workdir, loop_contracts=None, tag="b"):
         return a, ""
     b = os.path.join(workdir, tag + "_b.gb")
     lc = unit.get("loop_contracts", True) if loop_contracts is None else loop_contracts
-    _, log = C.goto_instrument(a, b, entry, unit.get("enforce", []), unit.get("replace", []), lc)
+    with open(cfile) as f:
+        ctext = f.read()
+    for inc in re.findall(r'#include "([^"]+)"', ctext):
+        for d in (os.path.join(VERIF, "units", os.path.dirname(unit["template"])), os.path.join(VERIF, "units", "common")):
+            if os.path.exists(os.path.join(d, inc)):
+                ctext += open(os.path.join(d, inc)).read()
+                break
+    ctext = X.strip_comments(ctext)
+    # a stub that is declared but never called is dropped by goto-cc; DFCC then rejects --replace for it
+    repl = [g for g in unit.get("replace", []) if len(re.findall(r"\b%s\s*\(" % re.escape(g), ctext)) >= 2]
+    _, log = C.goto_instrument(a, b, entry, unit.get("enforce", []), repl, lc)
     return b, log
 
 
